@@ -6,8 +6,12 @@
    raw-material orders = finished-goods order for every supplier (network BOM numbers are 1 for single-product nodes),
    and the ONE-STAGE case of the echelon / local base-stock equivalence.
    NOT proved: [echelon_local_equivalence_statement] for serial systems of any length (decided by the EBS correspondence
-   and by an EBS-vs-converted-BS trajectory oracle on the implementation); multi-product BOM orders (monitors only). *)
-From SV Require Import Sim.Model Sim.Inv_base Sim.Policy_thms Sim.Main Sim.Example.
+   and by an EBS-vs-converted-BS trajectory oracle on the implementation).
+   Multi-product nodes (Sim/MultiOrder.v: the ordering step of ONE node in ONE period, the state it starts from being an
+   input): each product's order = min(capacity, rule(position with units earmarked for the other products)), the
+   raw-material orders add up per raw material to NBOM x finished-goods orders, the first supplier gets everything.
+   The evolution of multi-product networks over time is not modelled (monitors on the implementation only). *)
+From SV Require Import Sim.Model Sim.Inv_base Sim.Policy_thms Sim.Main Sim.Example Sim.MultiOrder Sim.MultiOrder_proofs.
 
 Theorem C04_base_stock_rule : forall lv ip, let q := rule (BS lv) ip in 0 <= q /\ q == qmax 0 (lv - ip) /\ ip + q == qmax lv ip.
 Proof. exact bs_rule. Qed.
@@ -50,6 +54,46 @@ Definition echelon_local_equivalence_statement : Prop :=
     True -> map (fun e => map (fun n => (gq e (fIL, n, Ext), gq e (fOQFG, n, Ext))) (nodes NWe)) (run NWe inputs)
           = map (fun e => map (fun n => (gq e (fIL, n, Ext), gq e (fOQFG, n, Ext))) (nodes NWl)) (run NWl inputs).
 
+(* ---- multi-product nodes: bill-of-materials clause ---- *)
+Theorem C04_multi_fg_order_follows_policy : forall prods rms, mwf prods rms -> forall pre pd post, prods = pre ++ pd :: post ->
+  let '(oq0, oqfg0) := order_upto prods rms pre in
+  fg_get (snd (order_step false prods rms)) (p_id pd) == capq (p_cap pd) (rule (p_pol pd) (ip_of prods rms oq0 oqfg0 pd)).
+Proof. exact fg_order_follows_policy. Qed.
+Theorem C04_multi_raw_material_orders_add_up : forall prods rms, mwf prods rms -> forall paused rm, In rm rms ->
+  let '(oq, oqfg) := order_step paused prods rms in
+  qsumf (fun p => oq_get oq (r_id rm) p) (map s_nb (r_sups rm)) == qsumf (fun pd => nbom pd (r_id rm) * fg_get oqfg (p_id pd)) prods.
+Proof. exact raw_material_orders_add_up. Qed.
+Theorem C04_multi_first_supplier_gets_all : forall q s rest, split_order q (s :: rest) = (s_nb s, q) :: split_order (q - q) rest /\
+  Forall (fun x => snd x == 0) (split_order (q - q) rest).
+Proof. exact first_supplier_gets_all. Qed.
+Theorem C04_multi_order_pausing : forall prods rms k r p, fg_get (snd (order_step true prods rms)) k = 0 /\ oq_get (fst (order_step true prods rms)) r p = 0.
+Proof. exact paused_orders_nothing. Qed.
+(* with one product, NBOM = 1 and one supplier per raw material the position is the single-product form above *)
+Theorem C04_multi_single_product_position : forall pd rms, NoDup (map r_id rms) -> p_bom pd = map (fun rm => (r_id rm, 1)) rms ->
+  (forall rm, In rm rms -> exists s, r_sups rm = [s]) ->
+  ip_of [pd] rms [] [] pd == p_il pd + qmin_list (map (fun rm => r_inv rm + qsumf (fun s => s_oo s + s_idi s) (r_sups rm)) rms) - p_dem pd.
+Proof. exact single_product_position. Qed.
+
+(* two products sharing raw material 7 (two suppliers) ; product 2 also uses raw material 8: hypotheses hold, orders are non-trivial *)
+Definition ex_rms : list mrm := [ {| r_id := 7; r_inv := 2; r_sups := [ {| s_nb := Nd 20; s_oo := 3; s_idi := 0 |}; {| s_nb := Nd 21; s_oo := 0; s_idi := 1 |} ] |};
+                                  {| r_id := 8; r_inv := 0; r_sups := [ {| s_nb := Ext; s_oo := 4; s_idi := 0 |} ] |} ].
+Definition ex_prods : list mprod := [ {| p_id := 1; p_il := 5; p_dem := 4; p_pol := BS 12; p_cap := None; p_pfg := 1; p_bom := [(7%N, 2)] |};
+                                      {| p_id := 2; p_il := -1; p_dem := 3; p_pol := SS 6 15; p_cap := Some 9; p_pfg := 0; p_bom := [(7%N, 1); (8%N, 3)] |} ].
+Example C04_multi_nonvacuous : mwf ex_prods ex_rms /\
+  (let o := order_obs false ex_prods ex_rms in (map qobs (fst o), map (map qobs) (snd o))) = ([(8, 1); (9, 1)], [[(25, 1); (0, 1)]; [(27, 1)]])%Z /\ map qobs (ip_trace ex_prods ex_rms) = [(4, 1); (-8, 3)]%Z.
+Proof. split; [|vm_compute; split; reflexivity].
+  constructor; cbn.
+  - repeat constructor; cbn; intuition discriminate.
+  - repeat constructor; cbn; intuition discriminate.
+  - intros rm [E|[E|[]]]; subst; cbn; split; try discriminate; repeat constructor; cbn; intuition discriminate.
+  - intros pd [E|[E|[]]]; subst; cbn; (split; [repeat constructor; cbn; intuition discriminate|]);
+      intros rb [E|H]; subst; cbn.
+    + eexists; split; [left; reflexivity|reflexivity].
+    + destruct H.
+    + eexists; split; [left; reflexivity|reflexivity].
+    + destruct H as [E|[]]; subst. eexists; split; [right; left; reflexivity|reflexivity].
+Qed.
+
 Example C04_nonvacuous : rule (SS 4 10) 3 == 7 /\ rule (SS 4 10) 5 == 0 /\ capped (cfg ex_net 1%N) 20 == 9 /\ pol_ok (cfg ex_net 2%N).
 Proof. vm_compute. repeat split; try reflexivity; discriminate. Qed.
 
@@ -65,3 +109,8 @@ Print Assumptions C04_position_after_demand.
 Print Assumptions C04_order_pausing.
 Print Assumptions C04_raw_material_orders.
 Print Assumptions C04_echelon_local_equivalence_partial.
+Print Assumptions C04_multi_fg_order_follows_policy.
+Print Assumptions C04_multi_raw_material_orders_add_up.
+Print Assumptions C04_multi_first_supplier_gets_all.
+Print Assumptions C04_multi_order_pausing.
+Print Assumptions C04_multi_single_product_position.
